@@ -60,6 +60,28 @@ def corpus():
     return out
 
 
+SYNTH = [
+    # several `extend type` blocks for one type, an extension that adds an interface
+    ('synth/extend-type', '''schema { query: Query }
+type Query { a: Int }
+interface Named { name: String }
+type User { id: Int }
+type Team { id: Int }
+extend type Query { users: [User] }
+extend type Query { named: Named }
+extend type User implements Named { name: String }
+extend type User { email: String }
+extend type Team implements Named { name: String }
+''', 'query Q { a users { id name email } named { __typename name ... on User { email } ... on Team { id } } }\n'),
+    # input objects with defaults, enums and custom scalars side by side
+    ('synth/inputs', '''scalar Date
+enum Color { RED GREEN }
+input Filter { color: Color = RED since: Date tags: [String!] nested: Filter }
+type Query { find(f: Filter, c: Color!): [Color!] }
+''', 'query Q($f: Filter, $c: Color!) { find(f: $f, c: $c) }\n'),
+]
+
+
 def root_matrix():
     """(label, SDL, query): every arrangement of an explicit `schema {}` block (absent / declaring any subset of the three
     roots incl. query) x conventional or custom root type names x each operation kind.  Small enough to enumerate."""
@@ -92,7 +114,7 @@ def main():
     matrix = root_matrix()
     if tier == 'quick':
         matrix = [x for i, x in enumerate(matrix) if i % 2 == vc.seed() % 2 or 'Mutation' in x[0]]
-    for label, sdl, query in corpus() + matrix:
+    for label, sdl, query in corpus() + SYNTH + matrix:
         try:
             schema = gql.parse_schema(sdl)
             gql.parse_query(query)
@@ -101,15 +123,15 @@ def main():
             continue
         base = rt.gen(sdl, query, {})
         if base['status'] != 'ok':
-            if label.startswith('roots/'):
-                # both forms must agree on failure as well
-                r = rt.gen(introspect.to_introspection(schema), query, {}, schema_ext='json')
-                ncmp += 1
-                if r['status'] != base['status']:
-                    out.violation('roots:status-differs', f'{label}: the SDL form ends with {base["status"]} but the JSON form with {r["status"]} for `{query.strip()}` on `{sdl.splitlines()[0]}`',
-                                  dict(kind='native', corpus=label, rendering='json', sdl=sdl, query=query))
-                continue
-            samples.append(dict(corpus=label, skipped=f"SDL form does not generate: {base['text'][:120]}"))
+            # both forms must agree on failure as well
+            r = rt.gen(introspect.to_introspection(schema), query, {}, schema_ext='json')
+            ncmp += 1
+            if r['status'] != base['status']:
+                out.violation('roots:status-differs' if label.startswith('roots/') else f'{label}:status-differs',
+                              f'{label}: the SDL form ends with {base["status"]} ({base["text"][:120]!r}) but the JSON form with {r["status"]} for `{query.strip()[:120]}`',
+                              dict(kind='native', corpus=label, rendering='json', sdl=sdl, query=query))
+            elif not label.startswith('roots/'):
+                samples.append(dict(corpus=label, both_forms_fail=base['text'][:120]))
             continue
         want = items_of(base['text'])
         renderings = {
